@@ -330,6 +330,8 @@ def step (c : Cfg) (s : State) : Act → Option State
 
 def Final (s : State) : Prop := s.tpc = .dead
 
+instance (s : State) : Decidable (Final s) := by unfold Final; infer_instance
+
 def Reachable (c : Cfg) (s : State) : Prop := ∃ as, Core.run (step c) init as = some s
 
 end Thr
